@@ -437,8 +437,8 @@ MUTANTS = [
     dict(id="c07-handler-reads-new-book", file="flumine/execution/simulatedexecution.py", func="SimulatedExecution.execute_place",
          old="        market = self.flumine.markets.markets[order_package.market_id]\n", new="        market = order_package.market\n",
          expect=["R1"], why="handler not bound to the stored book"),
-    dict(id="c07-clock-kept-as-value", file="flumine/strategy/runnercontext.py", func="RunnerContext.reset",
-         old="        self.datetime_last_reset = datetime.datetime.utcnow()",
-         new="        clock = datetime.datetime.utcnow\n        self.datetime_last_reset = clock()", expect=["R5"],
-         why="the clock function kept as a value (here local, at construction it would outlive the patch)"),
+    dict(id="c07-clock-kept-as-value", file="flumine/strategy/runnercontext.py", func="RunnerContext.__init__",
+         old="        self.selection_id = selection_id\n",
+         new="        self.selection_id = selection_id\n        self._clock = datetime.datetime.utcnow\n", expect=["R5"],
+         why="the clock function stored at construction outlives (or predates) the simulated-clock patch"),
 ]
